@@ -674,7 +674,21 @@ def run_check(tier, seed):
             outp = os.path.join(wd, 'nb%d.out' % nr)
             rc, so, se = mpirun(nr, [nexe, script, outp, wd], timeout=600)
             if rc != 0:
-                tie_diffs.append(('nb', 'harness on %d ranks rc=%s %s' % (nr, rc, (se or so)[-800:])))
+                # the real library crashed / hung / aborted while executing a script of valid API calls: that is a
+                # failing input by itself; the case being executed is the replay
+                lastcase = -1
+                for rank in range(nr):
+                    try:
+                        for l in open(outp + '.%d' % rank):
+                            if l.startswith('CASE '):
+                                lastcase = max(lastcase, int(l.split()[1]))
+                    except OSError:
+                        pass
+                first = int(lines[1].split()[1]) if len(lines) > 1 and lines[1].startswith('CASE') else 0
+                kind = 'hang' if rc in (142, -999) else 'crash'
+                fails.append(('library-%s' % kind, 'harness c02_nb on %d rank(s) ended with rc=%s in case %d: %s'
+                              % (nr, rc, lastcase, (se or so)[-300:]),
+                              dict(nranks=nr, rc=rc, case=lastcase, script=_case_lines(lines, lastcase - first) if lastcase >= 0 else lines[:50])))
                 continue
             if len(samples) < 3:
                 samples.append(lines[1:12])
